@@ -429,6 +429,17 @@ class Wire:
             for bad in ("if", "try", "restore_position", "seek_before", "offset", "map_stream", "try_map", "try_calc"):
                 if bad in ds:
                     self.und(fw, "directive %s not modelled" % ds[bad]["raw"])
+            # `#[br(temp)] #[bw(calc = 0)] _pad: uN` is an explicit spare field: zero on write, discarded on read
+            wds = out["dirs"]["write"]
+            explicit_pad = "calc" in wds and wds["calc"]["value"].get("k") == "Lit" and wds["calc"]["value"].get("t") == "int" \
+                and wds["calc"]["value"].get("v") == "0" and ("temp" in out["dirs"]["read"] or has_attr(struct_item, "binrw")) \
+                and not any(k in ds for k in ("parse_with", "write_with", "map", "count"))
+            if on_wire and explicit_pad:
+                p_ = self.prim(f["ty"].get("name", ""))
+                if p_ is not None:
+                    segs.append(pad(p_["w"], "explicit"))
+                    on_wire = False
+                    out["explicit_pad"] = True
             if on_wire:
                 body = self.field_body(f, side, ds, fw, subst)
                 for s in body:
